@@ -16,7 +16,9 @@ PM = "grin_core::core::pmmr::pmmr::PMMR::"
 
 def run(c):
     import r9
-    c.r9("C02")
+    # the statement quantifies over "interleaved compaction and reopen": the compaction helpers (named only by C08's mechanism list) decide
+    # which spent positions compaction may physically remove, i.e. whether an output spent inside the horizon survives a reorg
+    c.r9("C02", also=[("C08", r"txhashset::input_pos_to_rewind$|TxHashSet::compact$|PMMRBackend::check_compact$|PMMRBackend::pos_to_rm$")])
     # --- fork-local validation dominates application
     CL = P + "process_block@txhashset::txhashset::extending"
     c.r1("rewind-before-utxo", CL, P + "rewind_and_apply_fork", sink=P + "validate_utxo", via=2)
